@@ -79,4 +79,55 @@ pub(crate) mod verif_kani {
             Err(_) => assert!(!expect),
         }
     }
+    /// a handler that records what it is asked to do (two holding registers at 7 and 8, answers an exception elsewhere)
+    struct Recorder { regs: [u16; 2], ex: u8, writes: u8, last: Option<Indexed<u16>>, reads: u8 }
+    impl RequestHandler for Recorder {
+        fn read_holding_register(&self, address: u16) -> Result<u16, ExceptionCode> {
+            if address == 7 || address == 8 { Ok(self.regs[(address - 7) as usize]) } else { Err(ExceptionCode::IllegalDataAddress) }
+        }
+        fn write_single_register(&mut self, value: Indexed<u16>) -> Result<(), ExceptionCode> {
+            self.writes += 1;
+            self.last = Some(value);
+            if self.ex == 0 { Ok(()) } else { Err(ExceptionCode::from(self.ex)) }
+        }
+    }
+
+    /// bounded end-to-end (one request kind each, every body, every handler answer, every decode level): a parsed write-single-register
+    /// request invokes the handler exactly once with the decoded index / value and is answered with the echo, or with the handler's
+    /// exception; a read of registers 7..8 is answered with the handler's two values big-endian
+    #[kani::proof]
+    #[kani::unwind(8)]
+    pub(crate) fn k_server_write_single_and_read_registers() {
+        let level = crate::common::frame::verif_kani::any_level();
+        let tx: u16 = kani::any();
+        let unit: u8 = kani::any();
+        let header = FrameHeader::new_tcp_header(UnitId::new(unit), crate::common::frame::TxId::new(tx));
+        let mut handler = Recorder { regs: kani::any(), ex: kani::any(), writes: 0, last: None, reads: 0 };
+        let mut writer = FrameWriter::tcp();
+        if kani::any() {
+            let body: [u8; 4] = kani::any();
+            let mut cursor = ReadCursor::new(&body);
+            let request = Request::parse(FunctionCode::WriteSingleRegister, &mut cursor).unwrap();
+            let reply = request.get_reply(header, &mut handler, &mut writer, level).unwrap();
+            assert!(reply[6] == unit && reply[0] == (tx >> 8) as u8 && reply[1] == tx as u8 && reply[2] == 0 && reply[3] == 0);
+            if handler.ex == 0 {
+                assert!(reply.len() == 12 && reply[5] == 6 && reply[7] == 0x06);
+                assert!(reply[8] == body[0] && reply[9] == body[1] && reply[10] == body[2] && reply[11] == body[3]);
+            } else {
+                assert!(reply.len() == 9 && reply[5] == 3 && reply[7] == 0x86 && reply[8] == u8::from(ExceptionCode::from(handler.ex)));
+            }
+            assert!(handler.writes == 1);
+            let v = handler.last.unwrap();
+            assert!(v.index == ((body[0] as u16) << 8 | body[1] as u16) && v.value == ((body[2] as u16) << 8 | body[3] as u16));
+        } else {
+            let body: [u8; 4] = [0, 7, 0, 2];
+            let mut cursor = ReadCursor::new(&body);
+            let request = Request::parse(FunctionCode::ReadHoldingRegisters, &mut cursor).unwrap();
+            let reply = request.get_reply(header, &mut handler, &mut writer, level).unwrap();
+            assert!(reply.len() == 13 && reply[5] == 7 && reply[6] == unit && reply[7] == 0x03 && reply[8] == 4);
+            assert!(reply[9] == (handler.regs[0] >> 8) as u8 && reply[10] == handler.regs[0] as u8);
+            assert!(reply[11] == (handler.regs[1] >> 8) as u8 && reply[12] == handler.regs[1] as u8);
+            assert!(handler.writes == 0);
+        }
+    }
 }
